@@ -95,7 +95,9 @@ def schmidt_rank(rho: np.ndarray, dim: int | list[int] | np.ndarray = None) -> f
         dim = np.array([dim, len(rho) / dim], dtype=int)
         dim[1] = np.round(dim[1])
 
-    return np.linalg.matrix_rank(np.reshape(rho, dim[::-1]))
+    # Amplitude matrix of the vector: entry (b, a) is the coefficient of |a>|b> (the same reshaping as in
+    # `schmidt_decomposition`); a row-major reshape with reversed dimensions is only correct for equal dimensions.
+    return np.linalg.matrix_rank(np.reshape(rho, dim[::-1], order="F"))
 
 
 def _operator_schmidt_rank(rho: np.ndarray, dim: int | list[int] | np.ndarray = None) -> float:
